@@ -18,7 +18,9 @@ pub const SMALL_CHUNK_BUILD: bool = option_env!("MAX_CHUNK_SIZE").is_some();
 #[serde(tag = "t")]
 pub enum Task {
     /// encrypt `len` bytes, serve the chunks honestly, read back with data_get_public
-    RoundTrip { len: usize, repetitive: bool },
+    /// nested: the stored content is itself the serialised data map (root data-map chunk value) of another file of
+    /// `len` bytes whose chunks are available too; it must read back as those bytes, not be followed
+    RoundTrip { len: usize, repetitive: bool, #[serde(default)] nested: bool },
     /// as RoundTrip, but the query for chunk number `victim` (0 = data map chunk) is answered
     /// `how`: 0 not found, 1 timeout, 2 another valid chunk of the same data, 3 a foreign valid
     /// chunk, 4 right bytes under the wrong record kind, 5 bytes that do not deserialise, 6 another valid chunk under its own key, 7 other content labelled with the requested address, 8 (root only) the data-map chunk of another file whose chunks are available
@@ -119,9 +121,10 @@ impl Sim for ClientSim {
         let task = match (ctx.property.as_str(), ctx.mode.as_str()) {
             ("C14", "nofault") => {
                 if rng.chance(1, 12) {
-                    Task::RoundTrip { len: rng.urange(0, 2), repetitive: false }
+                    Task::RoundTrip { len: rng.urange(0, 2), repetitive: false, nested: false }
                 } else {
-                    Task::RoundTrip { len: interesting_len(rng, ctx.tier), repetitive: rng.chance(1, 3) }
+                    let nested = rng.chance(1, 10);
+                    Task::RoundTrip { len: interesting_len(rng, ctx.tier), repetitive: rng.chance(1, 3), nested }
                 }
             }
             ("C14", _) => Task::DataWithFault { len: interesting_len(rng, ctx.tier), victim: rng.below(1 << 16) as u32, how: rng.below(2) as u8 },
@@ -197,7 +200,7 @@ impl Sim for ClientSim {
                 for l in [*len / 2, *len - 1] {
                     let mut p = plan.clone();
                     p.task = match &plan.task {
-                        Task::RoundTrip { .. } => Task::RoundTrip { len: l, repetitive: false },
+                        Task::RoundTrip { nested, .. } => Task::RoundTrip { len: l, repetitive: false, nested: *nested },
                         Task::DataWithFault { victim, how, .. } => Task::DataWithFault { len: l, victim: *victim, how: *how },
                         t => t.clone(),
                     };
